@@ -1,6 +1,8 @@
 //! Shared machinery of the verification harness (see /verif/DESIGN.md).
 #[cfg(feature = "ledger")]
 pub mod ledger;
+#[cfg(feature = "std")]
+pub mod bufx;
 pub mod out;
 pub mod rng;
 pub mod seq;
